@@ -33,6 +33,48 @@ CLAIMED = {
         note="Covers the converters only so far: that Aggregate.to_etree writes nothing but converter.unconvert(value) into element text, and the escaping of the wire forms, are not yet under contract in this check (see DESIGN.md status table); known findings KF-C11-decimal-exponent and KF-C11-int-bool are replayed each run.",
         technique="output-language postconditions on the real unconvert functions; pyvc VCs + z3",
         engine="pyvc"),
+    "C12": dict(
+        category="proof",
+        text="make_header routes every integer and every decimal text: 1xx gives the flat-text header class, the seven supported 2xx versions the XML class, everything else (including non-numeric text) OFXHeaderError; constructors refuse every field outside its domain (opaque tokens of any length) with OFXHeaderError and no object; __str__ is the exact prescribed text; parse(str(h)) returns a header of the same kind with equal fields and the documented end offset; header texts with an out-of-domain token, an over-long UID, a missing or transposed mandatory field are refused.",
+        design_ref="DESIGN.md 9 (C12)",
+        note="Round trip proved with one UID of length 1, 2, 17, 35 or 36 (all characters symbolic over [A-Za-z0-9_-]) and the other 'NONE', plus both of length 36; text-level corruption with tokens of 1..4 printable ASCII characters and UIDs of 37/38/40 characters; other lengths only in the sampled native evaluation (bounded). COMPRESSION omission is not demanded to fail (optional by documented intent). Known finding KF-C12-v1-version-range: OFXHeaderV1 accepts any VERSION below 1000. Trusted: pyvc, symbolic regex matcher on the real header regexes, z3.",
+        technique="contracts on make_header / constructors / __str__ / parse; pyvc VCs with the symbolic regex matcher; z3",
+        engine="pyvc"),
+    "C13": dict(
+        category="other",
+        text="Exhaustive decision over the finite, fully enumerated space of model classes (397 Aggregate subclasses, 390 concrete, 2085 declared children): one obligation per (class, clause) for I1 lookup by tag, I2 list/sub-aggregate attribute naming, I3 groom/ungroom renames, I4 list adjacency (witness round trip), I5 mutex groups in force in every inheriting class and naming optional non-repeated children, I6 ElementList shape, I7 tag naming, I8 acyclic class graph, I9 for every declared child a witness instance is built, written, parsed by the real parser and read back into the same attribute.",
+        design_ref="DESIGN.md 5 and 9 (C13)",
+        note="Not a deductive proof: a complete evaluation of invariant predicates on every real class object (exhaustive: true), and an existence witness per declared child run through the real pipeline. The statement for all *values* of a child is the C01/C03 obligations, not this check. Known findings: TAX1099INT_V100 list adjacency; mutex groups naming a repeated child in TAX1099DIV/INT/MISC_V100.",
+        technique="class invariants as contracts on the class objects, decided by exhaustive enumeration with per-child witnesses",
+        engine="xengine"),
+    "C04": dict(
+        category="proof",
+        text="Element-tree route: the real fold step Aggregate._convert.update_args is proved, for a symbolic child of an arbitrary class, to refuse exactly the order and duplicate violations of the spec step and otherwise to extend the accumulator as the spec step does. Keyword route: for each of the 390 classes Aggregate.__init__ (with the class's own validate_args) is executed symbolically over all presence patterns: it returns only if every required child is present and every mutex group declared by any base class holds, stores exactly conv(attr, value) per attribute, and raises only when a declared constraint is violated. List members (_apply_args) and leftover keywords (_apply_residual_kwargs) are proved generically. Enumeration / length / digit limits are the C10 converter contracts used through the abstract converter.",
+        design_ref="DESIGN.md 9 (C04, common scheme)",
+        note="Trusted: pyvc; L1 abstraction of class-level mappings as uninterpreted index/predicates; abstract converters justified by the C10 contracts; functools.reduce = iterated step. Class-specific validate_args overrides are executed, their own rules are not specified independently. Failing L1 obligations have no concrete input (abstract arguments): the bounded companion on real classes supplies one where it finds it, otherwise the VIOLATION line says no-failing-input-found. Known finding: mutex groups naming a repeated child can never fire (shared with C13).",
+        technique="L1 generic step proofs with symbolic attribute + L2 per-class symbolic execution of the real constructor; pyvc VCs + z3",
+        engine="pyvc"),
+    "C03": dict(
+        category="proof",
+        text="Routing: update_args stores each child's text or converted sub-aggregate under its own tag / list position (L1, symbolic child), __init__ stores conv(attr, value) in attribute attr and nothing else (per class, all presence patterns). Values: every convert arm of every element type returns the value the independent OFX type rules assign (C10/C09 contracts re-run here).",
+        design_ref="DESIGN.md 9 (C03)",
+        note="As C04 and C10/C09. The parser's trimming of element data is C02, not re-proved here. Known findings on lenient integer / decimal literals are shared with C10.",
+        technique="L1/L2 aggregate proofs + converter contracts; pyvc VCs + z3",
+        engine="pyvc"),
+    "C07": dict(
+        category="proof",
+        text="Top clause on the real fold step (symbolic child of any class): an undefined tag leaves all four accumulator components unchanged, warns exactly once and does not enter the child. The list lemma foldl_skip / foldl_insert (checked by lean every run) lifts this to any number of insertions at any positions. groom (base and the three overrides) is evaluated against the reference on an exhaustively enumerated small scope (bounded).",
+        design_ref="DESIGN.md 9 (C07)",
+        note="groom/ungroom use ElementTree XPath and deepcopy, outside the symbolic subset: bounded (all roots with <= 3 children over 7 tags, children plain or holding a keyword/vendor grandchild; 4 children in thorough). Rendering of insertions in SGML/XML is the parser's property (C02).",
+        technique="postcondition on the real update_args closure (pyvc + z3), Lean list lemma, bounded exhaustive evaluation for groom",
+        engine="pyvc"),
+    "C16": dict(
+        category="proof",
+        text="__getattr__: the loop body is proved for a symbolic sub-aggregate - the first definer's stored object is returned, every other case moves on, no exception escapes and nothing is stored on the instance; an exhausted loop raises AttributeError. The statements shortcuts of the six statement message sets are proved equal to the explicit path walk for every member-class sequence up to length 3 with each statement symbolically present or absent (every statement once, in document order, only trnuid/cltcookie stapled); OFX.statements/signon and the alias properties likewise on heap instances.",
+        design_ref="DESIGN.md 9 (C16)",
+        note="Member sequences longer than 3 are covered by uniformity of the loop body only (stated, not proved by induction). hasattr / copy / deepcopy / pickle are exercised by the bounded companion on random real instances. A-NONEATTR: looked-up names are not NoneType attributes.",
+        technique="loop-body contracts with abstract sub-aggregates; symbolic execution of the real properties on heap instances; pyvc + z3",
+        engine="pyvc"),
 }
 
 
